@@ -20,6 +20,8 @@ MENU = [
     ('[!h=z]', 'h', 'z', 'implied'), ('[e={x}]', 'e', 'x', 'expr'), ('[disabled]', 'disabled', None, 'listed'),
     ('[class=k]', 'class', 'k', None), ('[id=j]', 'id', 'j', None), ('[for=f]', 'for', 'f', None),
     ('[!k.]', 'k', None, 'implied'), ('[a=""]', 'a', '', None),
+    ('[class]', 'class', None, None),          # value-less first mention of a class: later mentions still merge into it
+    ('[Checked]', 'Checked', None, 'listed'),      # HTML attribute names are case-insensitive: still the listed boolean attribute
     ('..c3', 'class', 'c3', None),        # doubled shorthand: still a class attribute (html / xml syntaxes only, see run_shard)
 ]
 OPTION_SPACE = {
@@ -137,11 +139,18 @@ def reference(ms, opts, syntax, explicit_list):
 
 
 HOSTS_REPEAT = ('%s*2', '(%s+y)*2', 'p>%s*3')
+# the mentions written on a snippet alias whose definition has two top-level elements: both receive the same attribute list
+HOST_ALIAS = 'ALIAS'
+ALIAS_SNIPPETS = {'al': 'x+x'}
 
 
 def check_merge(ms, share, opts, syntax, explicit_list, host=None):
     s = source(ms, share)
-    if host:
+    cfg = {'syntax': syntax}
+    if host == HOST_ALIAS:
+        s = 'al' + s[1:]
+        cfg['snippets'] = dict(ALIAS_SNIPPETS)
+    elif host:
         s = host % s
     o = dict((k, v) for k, v in opts.items() if v is not None)
     o['output.format'] = False
@@ -149,7 +158,8 @@ def check_merge(ms, share, opts, syntax, explicit_list, host=None):
         o['output.booleanAttributes'] = list(BOOL_LIST)
     exp = reference(ms, opts, syntax, explicit_list)
     try:
-        out = expand(s, {'syntax': syntax, 'options': o})
+        cfg['options'] = o
+        out = expand(s, cfg)
         ev = lex_html(out)
         if host:
             copies = [e[2] for e in ev if e[0] == 'o' and e[1] == 'x']
@@ -163,7 +173,7 @@ def check_merge(ms, share, opts, syntax, explicit_list, host=None):
     for ci, got in enumerate(copies):
         if not (len(got) == len(exp) and all(g == e or (e[1] == 'XMLBOOL' and g[0] == e[0] and g[1] is not None and g[2] in ('', g[0]))
                                              for g, e in zip(got, exp))):
-            return s, (classify(exp, got) + (':copy-%d-of-repeated-element' % (ci + 1) if host else ''),
+            return s, (classify(exp, got) + ((':element-%d-of-alias' if host == HOST_ALIAS else ':copy-%d-of-repeated-element') % (ci + 1) if host else ''),
                        dict(abbr=s, expected=exp, actual=got, output=out[:200]))
     return s, None
 
@@ -229,6 +239,15 @@ def run_shard(shard, ctx, tier):
                             if bad:
                                 ctx.violation(bad[0], dict(mentions=[m[0] for m in ms], share=share, options=opts, syntax=syntax,
                                                            explicit_boolean_list=bl, abbr=s), bad[1])
+                            if n <= 3 and not opts and syntax == 'html':
+                                ctx.states += 1
+                                ctx.transitions += 1
+                                ctx.evals += 1
+                                ctx.validated += 1
+                                s2, bad = check_merge(ms, share, opts, syntax, bl, HOST_ALIAS)
+                                if bad:
+                                    ctx.violation(bad[0], dict(mentions=[m[0] for m in ms], share=share, options=opts, syntax=syntax,
+                                                               explicit_boolean_list=bl, abbr=s2, host=HOST_ALIAS), bad[1])
                             if n <= 2 and len(opts) <= 1:
                                 # the same element inside repeaters: every copy carries the same attribute list
                                 for host in HOSTS_REPEAT:
@@ -319,7 +338,7 @@ BY_SRC = dict((m[0], m) for m in MENU)
 
 
 def check_case(case):
-    if 'host' in case:
+    if 'units' in case:
         _, bad = check_payload(case['host'], tuple(case['units']))
         return [bad] if bad and bad != 'excluded' else []
     ms = tuple(BY_SRC[s] for s in case['mentions'])
@@ -328,10 +347,13 @@ def check_case(case):
 
 
 def repro(case):
-    if 'host' in case:
+    if 'units' in case:
         return 'from emmet import expand\nprint(expand(%r, {"options": {"output.format": False}}))\n' % case['abbr']
     o = dict(case['options'])
     o['output.format'] = False
     if case['explicit_boolean_list']:
         o['output.booleanAttributes'] = BOOL_LIST
-    return 'from emmet import expand\nprint(expand(%r, %r))\n' % (case['abbr'], {'syntax': case['syntax'], 'options': o})
+    cfg = {'syntax': case['syntax'], 'options': o}
+    if case.get('host') == HOST_ALIAS:
+        cfg['snippets'] = dict(ALIAS_SNIPPETS)
+    return 'from emmet import expand\nprint(expand(%r, %r))\n' % (case['abbr'], cfg)
